@@ -301,3 +301,44 @@ def check_anchor_freshness(R, F, rule='anchor-fresh'):
                       '%s is replaced by the result of %s on every successful path, before the next write' % (field, callee),
                       '%s is not updated from the result of %s on every successful path (%s): a stale anchor of an earlier, different name survives' % (field, callee, paths.fmt_path(ar, p) if p else 'no assignment found'))
     R.floor(rule, 3)
+
+
+def check_truncation_exact(R, F, rule='truncation-exact'):
+    """Error::Truncation is produced only by tests of the space that is actually about to be consumed: the guard compares
+    `available - cursor` with an amount N (or cursor + N with available) and the success path of the same function
+    consumes exactly N (cursor += N or available -= N).  A test of an *estimate* (for instance uncompressed lengths)
+    would truncate responses that fit."""
+    from rules import e5
+    n = 0
+    for gp, fn in sorted(F.fns.items()):
+        if not gp.startswith('message::writer::') or '::tests::' in gp or 'template' in gp or fn.crate != 'quandary':
+            continue
+        for b, blk in enumerate(fn.blocks):
+            if blk['cleanup']:
+                continue
+            for st in blk['stmts']:
+                if not (st['k'] == 'assign' and st['rv']['k'] == 'agg' and st['rv']['def'].endswith('writer::Error::Truncation')):
+                    continue
+                n += 1
+                g = paths.direct_guards(fn, b)
+                key = '%s|%d' % (gp, n)
+                if gp == W + 'new':
+                    ok = any(re.match(r'^Lt\(Ord::min\(arg2,slice::len\(arg1\)\),12_usize\) not in \[0\]$', x) for x in g)
+                    R.require(ok, rule, gp + '|header-does-not-fit', fn.where(b), 'Writer::new refuses buffers/limits below 12 octets', 'Writer::new reports Truncation under %s' % g)
+                    continue
+                amount = None
+                for x in g:
+                    m = re.match(r'^Lt\(Sub\(arg1\.available,arg1\.cursor\),(.+)\) not in \[0\]$', x) or re.match(r'^Ge\(Sub\(arg1\.available,arg1\.cursor\),(.+)\) in \[0\]$', x) or re.match(r'^Gt\(Add\(arg1\.cursor,(.+)\),arg1\.available\) not in \[0\]$', x)
+                    if m:
+                        amount = m.group(1)
+                consumed = []
+                for f in ('cursor', 'available'):
+                    for f_, bb, i, s2 in e5.field_stores(F, WRITER_TY, f, scope=lambda gfn: gfn.gpath == gp):
+                        txt = paths.show_operand(fn, s2['rv']['op'])
+                        m = re.match(r'^(Add\(arg1\.cursor|Sub\(arg1\.available),(.+)\)$', txt)
+                        if m:
+                            consumed.append(m.group(2))
+                ok = amount is not None and amount in consumed
+                R.require(ok, rule, '%s|tests-what-it-consumes' % gp, fn.where(b), 'Truncation iff fewer than %s octets remain, and exactly that many are then consumed' % amount,
+                          'Truncation is reported under %s, but the success path of %s consumes %s: the test is not about the space actually needed, so responses that fit can be truncated' % (g, gp.split('::')[-1], consumed or 'nothing'))
+    R.floor(rule, 5)
